@@ -72,6 +72,18 @@ CLAIMS = {
         note=NOTE_BASE,
         technique="static analysis: structural formula conformance of whole-array expressions on MIR",
     ),
+    "C02": dict(
+        category="other",
+        text="SINGLE selection (get_from_sorted_mut) is proved statically for every input and every pivot sequence: all return paths are "
+             "executed abstractly with partition_mut's contract (itself proved: R22/R18) and the induction hypothesis on the strictly "
+             "shorter sub-view, with relations between value symbols closed under transitivity; the postcondition a[i] = r, everything "
+             "before i ≤ r, everything after ≥ r follows; only swaps move data (R4), so r is the element a full sort places at i; the pivot "
+             "index is unconstrained in the proof. BULK selection: only 'one entry per distinct index in increasing index order' is decided "
+             "(sorted+deduped typestate, index/value zip); that each bulk entry equals the single selection is NOT decided.",
+        design_ref="DESIGN.md §4 C02",
+        note=NOTE_BASE + " Ord is assumed a lawful total order.",
+        technique="static analysis: summary-based abstract execution of all paths (segment predicates + symbolic order relations) on MIR",
+    ),
     "C03": dict(
         category="proof",
         text="Static proof of an effect discipline sufficient for 'in-place routines only permute their lanes': over the call graph "
@@ -203,8 +215,7 @@ CLAIMS = {
 
 
 NOT_APPLICABLE = {
-    "C02": "static analysis cannot decide it: functional correctness of randomized quickselect over all order patterns and pivot sequences quantifies over runtime values and needs an array-content domain or a solver (DESIGN.md §4 C02)",
-    "C19": "static analysis cannot decide it: monotonicity in q, ordering between strategies and permutation/relabelling invariance relate values of several runs; nothing in the code's shape decides them short of proving C01/C02 (DESIGN.md §4 C19)",
+    "C19": "static analysis has nothing further to decide here: monotonicity in q, bracketing by min/max, ordering between strategies, permutation- and relabelling-invariance relate the values of several runs; they are mathematical corollaries of C01 (interpolation layer: decided) and C02 (selection: decided for the single form only, not for the bulk form the quantiles use) plus floating-point monotonicity arguments - there is no additional structure in the code whose shape decides them (DESIGN.md §4 C19)",
 }
 
 NOTES = ("Technique family: static analysis only. Every check re-extracts MIR facts from /repo's working tree with a rustc_private "
